@@ -441,9 +441,10 @@ int main(int argc, char **argv) {
     bool ts_first = r.chance(50); if (ts_first) anim.SetTimestamps(ts);
     int tracks = (int)r.below(4);
     std::vector<std::vector<uint8_t>> data; std::vector<int> ncs, ids; std::vector<DataType> dts;   // raw bytes of every track as given
-    for (int k = 0; k < tracks; k++) { int nc = (int)r.range(1, r.chance(20) ? 16 : 4); int tk = (int)r.below(10); int id = -1; std::vector<uint8_t> raw; DataType dt = DT_FLOAT32;
-      auto fill = [&](auto tag, DataType d, int64_t lo, int64_t hi) { typedef decltype(tag) T; std::vector<T> v((size_t)frames * nc); for (auto &x : v) x = (T)r.range(lo, hi); id = anim.AddKeyframes(d, nc, v); raw.assign((const uint8_t *)v.data(), (const uint8_t *)v.data() + v.size() * sizeof(T)); dt = d; };
-      if (tk < 6) { std::vector<float> d((size_t)frames * nc); for (auto &x : d) x = (float)r.range(-4000, 4000) / 64.f; id = anim.AddKeyframes(DT_FLOAT32, nc, d); raw.assign((const uint8_t *)d.data(), (const uint8_t *)d.data() + d.size() * 4); }
+    for (int k = 0; k < tracks; k++) { int nc = (int)r.range(1, r.chance(20) ? 16 : 4); int tk = (int)r.below(10); const bool still = r.chance(15);   // constant track: one unique correction symbol (raw-scheme bit length boundary)
+      int id = -1; std::vector<uint8_t> raw; DataType dt = DT_FLOAT32;
+      auto fill = [&](auto tag, DataType d, int64_t lo, int64_t hi) { typedef decltype(tag) T; std::vector<T> v((size_t)frames * nc); for (auto &x : v) x = (T)r.range(lo, hi); if (still) { const T c0 = r.chance(30) ? (T)0 : v[0]; for (auto &x : v) x = c0; } id = anim.AddKeyframes(d, nc, v); raw.assign((const uint8_t *)v.data(), (const uint8_t *)v.data() + v.size() * sizeof(T)); dt = d; };
+      if (tk < 6) { std::vector<float> d((size_t)frames * nc); for (auto &x : d) x = (float)r.range(-4000, 4000) / 64.f; if (still) { const float c0 = r.chance(30) ? 0.f : d[0]; for (auto &x : d) x = c0; } id = anim.AddKeyframes(DT_FLOAT32, nc, d); raw.assign((const uint8_t *)d.data(), (const uint8_t *)d.data() + d.size() * 4); }
       else if (tk == 6) fill((int32_t)0, DT_INT32, -100000, 100000); else if (tk == 7) fill((uint32_t)0, DT_UINT32, 0, 70000); else if (tk == 8) fill((int16_t)0, DT_INT16, -3000, 3000); else fill((uint8_t)0, DT_UINT8, 0, 255);
       data.push_back(raw); ncs.push_back(nc); ids.push_back(id); dts.push_back(dt); }
     if (!ts_first) { if (!anim.SetTimestamps(ts)) continue; }
